@@ -23,7 +23,7 @@ Inductive op :=
 | ORange (w : which)
 | OCompact (w : which) (ord : list N)   (* one Compaction() call; ord = Go map order reconstructed from the run *)
 | OCompactAll (w : which) (ords : list (list N))   (* Compaction() until it reports done *)
-| OScanAll (w : which) (count : nat) (pat : N)   (* pat: 0 = no pattern, b>0 = keys starting with byte b-1 *)
+| OScanAll (w : which) (count : nat) (pat : N)   (* pat: 0 = no pattern, 1..256 = keys starting with byte pat-1 ("^\xNN"), >= 257 = keys containing byte pat-257 anywhere ("\xNN", not anchored) *)
 | OXfer (ord : list N).             (* Export first live table of A, Import into B with f = Put (visiting the
                                        hkeys in the Go-map order ord reconstructed from the run), Drop *)
 
@@ -68,7 +68,8 @@ Definition sort_hv (l : list (N * view_t)) := fold_right ins_hv [] l.
 
 Definition matcher (pat : N) (k : list byte) : bool :=
   if pat =? 0 then true
-  else match k with [] => false | b :: _ => b =? pat - 1 end.
+  else if pat <=? 256 then match k with [] => false | b :: _ => b =? pat - 1 end
+  else existsb (fun b => b =? pat - 257) k.
 
 Definition all_hkeys_sorted (t : table) : list N := fold_right insert_sorted [] (map rh (trecs t)).
 
